@@ -66,6 +66,34 @@ def plan_async(length):
     return plan
 
 
+def async_scenarios():
+    """small scope, in full: a consumer parks; a producer writes in the SAME turn of the event loop (no slice in between) or one slice later; requests are
+    pipelined behind the parked pop; it is then served or times out"""
+    import itertools
+    blockers = [[b'blpop', b'l0', b'0'], [b'brpop', b'l0', b'l1', b'2'], [b'brpoplpush', b'l0', b'dst', b'0'], [b'blpop', b'l1', b'l0', b'1']]
+    behind = [[], [[b'ping']], [[b'llen', b'l0'], [b'lpush', b'l0', b'mine'], [b'get', b'k']], [[b'blpop', b'l1', b'1']], [[b'multi'], [b'incr', b'n'], [b'exec']]]
+    feeds = [[[b'rpush', b'l0', b'a']], [[b'rpush', b'l0', b'a', b'b'], [b'rpush', b'l1', b'c']], [[b'rpush', b'l1', b'c']], [[b'multi'], [b'rpush', b'l0', b'a'], [b'exec']], []]
+    for blk, bh, feed, same_turn in itertools.product(blockers, behind, feeds, (True, False)):
+        def plan(s, rng, blk=blk, bh=bh, feed=feed, same_turn=same_turn):
+            yield ('open', 1)
+            yield ('open', 2)
+            yield ('cmdq' if same_turn else 'cmd', 1, list(blk))
+            for f in bh:
+                yield ('cmdq' if same_turn else 'cmd', 1, list(f))
+            for i, f in enumerate(feed):
+                yield ('cmdq' if same_turn and i < len(feed) - 1 else 'cmd', 2, list(f))
+            if not feed:
+                yield ('aadv', 0.1)
+            for _ in range(3):
+                if any(sk._paused for sk in s.impl.socks.values()):
+                    yield ('aadv', 3.0)
+            yield ('cmd', 2, [b'lrange', b'l0', b'0', b'-1'])
+            yield ('cmd', 2, [b'lrange', b'l1', b'0', b'-1'])
+            if not s.impl.socks[1]._paused:
+                yield ('cmd', 1, [b'ping'])
+        yield plan
+
+
 def plan_async_tx(length):
     """MULTI/EXEC on the asyncio front-end, with blocking pops (which must not block) and errors inside the queue"""
     def plan(s, rng):
@@ -96,14 +124,17 @@ def plan_async_tx(length):
     return plan
 
 
-def run_async_campaign(res, prop, plan, n_hist, seed, t_end, scope=None, observers=()):
-    for h in range(n_hist):
+def run_async_campaign(res, prop, plan, n_hist, seed, t_end, scope=None, observers=(), plans=None):
+    plans = list(plans) if plans is not None else None
+    for h in range(len(plans) if plans is not None else n_hist):
         if time.time() > t_end:
             res.notes.append('time budget reached')
             break
         hseed = (seed * 1000003 + h * 7919 + 14) & 0x7fffffff
         rng = random.Random(hseed)
         version = rng.choice([6, 7])
+        if plans is not None:
+            plan = plans[h]
         s = corr.Session(version, hseed, True, observers, aio=True)
         s.violations = []
         events, div = [], None
